@@ -45,6 +45,15 @@ Theorem C11_program_reach : forall t0 t1 w0 w1 (prog : list (cmd O)) s,
             Reach al (src_rect t0 t1 w0 w1) (map (spec_of mn h sc) (choppers_of mn h sc prog)) (fdist (last_frame O s)) p.
 Proof. exact (program_reach mn h sc). Qed.
 
+(* FrameSequence[d] after a cascade: exactly the neutrons transmitted by the choppers up to distance d *)
+Theorem C11_getitem_reach : forall t0 t1 w0 w1 (cs : list (chopper O)) s d,
+  t0 <= t1 -> w0 <= w1 -> seq_chop O cs (source O t0 t1 w0 w1) = Some s -> 0 <= d ->
+  exists fr, getitem O d s = Some fr /\
+    forall p, in_frame mn h sc fr p <->
+              Reach al (src_rect t0 t1 w0 w1)
+                    (map (spec_of mn h sc) (filter (fun c : chopper O => Rleb (cdist c) d) cs)) d p.
+Proof. exact (getitem_reach mn h sc). Qed.
+
 (* every vertex of every frame stays inside the source wavelength band *)
 Theorem C11_within_band : forall t0 t1 w0 w1 (prog : list (cmd O)) s,
   t0 <= t1 -> w0 <= w1 -> run O (source O t0 t1 w0 w1) prog = Some s ->
@@ -92,6 +101,7 @@ Print Assumptions C11_clip_complete.
 Print Assumptions C11_clip_convex.
 Print Assumptions C11_frames_are_reach.
 Print Assumptions C11_program_reach.
+Print Assumptions C11_getitem_reach.
 Print Assumptions C11_within_band.
 Print Assumptions C11_order_irrelevant_sorted.
 Print Assumptions C11_order_irrelevant.
